@@ -40,7 +40,17 @@ exception Boom {
     1: string message,
 }
 
+// a direct argument / result type whose fields carry constant defaults (all four requiredness x default combinations)
+struct WithDefaults {
+    1: i32 version = 1,
+    2: required string name,
+    3: optional i32 limit = 20,
+    4: required bool strict = true,
+    5: optional string note,
+}
+
 service Keeper {
+    WithDefaults tune(1: WithDefaults cfg),
     Big roundtrip(1: Big big, 2: Small small),
     void push(1: list<Small> items, 2: map<string, Big> bigs),
     Either pick(1: Either e) throws (1: Boom b),
